@@ -133,10 +133,15 @@ def opNew (legacy : Bool) (a : List String) : Option St × String :=
             | none => none
           else none
         -- source fault: every `read` after `k` successful ones returns `Err`
-        let faultK? : Option (Option Nat) :=
+        -- `!<k>` permanent, `!<k>t` transient (that call only); `!<k>i` / `!<k>j` = `Err(Interrupted)` once / three times at that
+        -- call: retried transparently by `read_block_stream`, invisible in the model
+        let faultK? : Option (Option (Nat × Bool)) :=
           match src.splitOn "!" with
           | [_] => some none
-          | [_, k] => (k.toNat?).map some
+          | [_, k] =>
+            if k.endsWith "i" || k.endsWith "j" then ((k.dropEnd 1).toString.toNat?).map (fun _ => none)
+            else if k.endsWith "t" then ((k.dropEnd 1).toString.toNat?).map (fun n => some (n, true))
+            else (k.toNat?).map (fun n => some (n, false))
           | _ => none
         match faultK? with
         | none => (none, "bad-op")
@@ -153,7 +158,7 @@ def opNew (legacy : Bool) (a : List String) : Option St × String :=
           | _ => objectSource (fun _ _ => te) cencN supplied
         let source? : Option Source :=
           match source?, faultK with
-          | some (.stream st), some k => some (.faulty st k)
+          | some (.stream st), some (k, once) => some (.faulty st k once)
           | x, _ => x
         match source? with
         | none => (none, "ERR create")
